@@ -97,7 +97,7 @@ def e2e_cases(ctx):
   cases = []
   if quick:
     Ns = [1, 2, 3, 5, 7, 12, 21, 30]
-    extra = rng.shuffle([4, 6, 9, 10, 11, 13, 14, 15, 17, 19, 22, 23, 25, 26, 27, 29])[:2]
+    extra = rng.shuffle([4, 6, 9, 10, 11, 13, 14, 15, 17, 19, 22, 23, 25, 26, 27, 29])[:1]
     Ns = Ns + extra
     Dsets = [[1, 2, 3, 8]]
   else:
